@@ -23,13 +23,13 @@ CONFIG = {
              '(so this also holds where METADATA is documentedly blind: the stale value is the specified one); plus random programs where every observed/built file of every committed build '
              'gets each mutation on a saved copy; evaluations = judged rebuilds; distinct_nontrivial = distinct '
              '(role, position, operation, mode, mutation, expected re-execution?) cells observed'),
-    'exhaustive_layer': 'the factorial core (704 cells incl. 1 ns / 999 ns timestamp moves and tail-byte changes of 5 kB files: the readback role additionally x {producer METADATA|HASH-compared} x {fresh|preserved output timestamp}) (every cell enumerated in every run, split over shards)',
+    'exhaustive_layer': 'the factorial core (768 cells incl. 1 ns / 999 ns timestamp moves, mtime set to 0 and tail-byte changes of 5 kB files: the readback role additionally x {producer METADATA|HASH-compared} x {fresh|preserved output timestamp}) (every cell enumerated in every run, split over shards)',
     'gates': ['cells', 'cell_expected_rerun', 'cell_expected_cached', 'blind_cells', 'random_mutation_rebuilds',
               'hash_touch_cells', 'metadata_content_only_cells', 'shape_cells', 'shape_cells_expected_rerun'],
 }
 
 MUTS = ['none', 'touch', 'c_same_new', 'c_size_new', 'c_same_keep', 'c_size_keep', 'tail_keep', 'tail_new',
-        'touch_1ns', 'touch_999ns', 'touch_minus_1ns']
+        'touch_1ns', 'touch_999ns', 'touch_minus_1ns', 'touch_to_zero']
 KINDS = {'extra_invocation', 'missing_invocation', 'reused_output_rewritten'}
 VALUE_KINDS = {'result', 'tree', 'query'}
 
@@ -97,6 +97,10 @@ def apply_mut(w, r, mut, tag):
     if mut in ('touch_1ns', 'touch_999ns', 'touch_minus_1ns'):
         # METADATA is specified on mtime_ns: the smallest representable change counts
         return mut if w.ext_touch(r, {'touch_1ns': 1, 'touch_999ns': 999, 'touch_minus_1ns': -1}[mut]) else None
+    if mut == 'touch_to_zero':
+        # mtime 0 (the epoch) is a legal, falsy value: recorded and compared like any other
+        import os as _os
+        return mut if w.ext_touch(r, -_os.stat(p).st_mtime_ns) else None
     if mut == 'c_same_new':
         return mut if same is not None and w.ext_rewrite(r, same, False) else None
     if mut == 'c_size_new':
